@@ -33,13 +33,17 @@ def optRow? (rows : List OptRow) (name : String) : Option OptRow :=
 
 /-- the text cxxopts stores as default: `with_default(defs)` = `default_value(defs)` for `std::string`,
     `default_value(std::to_string(defs))` otherwise (so a `double` literal goes through `"%f"`) -/
-def defaultText (r : OptRow) : String :=
+def defaultTextVia (via : String) (r : OptRow) : String :=
   match r.ty with
   | .dbl =>
-    match parseNum r.default.toList with
-    | some q => String.ofList (toStringF q)
-    | none => r.default
+    if via == "std::to_string" then
+      match parseNum r.default.toList with
+      | some q => String.ofList (toStringF q)
+      | none => r.default
+    else r.default      -- `fmt::format("{}", x)`: shortest text that reads back as x; the literal's own text stands for it
   | _ => r.default
+
+def defaultText (r : OptRow) : String := defaultTextVia doubleDefaultsVia r
 
 def countOf (o : Opts) (name : String) : Nat :=
   match o.find? (fun g => g.name == name) with
@@ -398,7 +402,7 @@ def runSteps (rows : List OptRow) (maps : List NameMap) (wiring : List WireRow) 
         if target != "input" then s.done 255 "model: unknown read target" else
         -- a file that cannot be opened leaves the stream in a failed state: the loop body never runs
         let content := (readFile name).getD []
-        let rowsRead := if (readFile name).isSome then readRows parseNum dl content else []
+        let rowsRead := if (readFile name).isSome then readRowsWith readLoopRereadsLastLine parseNum dl content else []
         match matrixOfRows rowsRead with
         | .ok M => continue_ { s with input := some M }
         | .error (.ragged i) => s.done (catchExit catches) ("Wrong data at line " ++ toString i)
